@@ -20,7 +20,7 @@ MODULES = ['nl.bsn', 'nl.onderwijsnummer', 'pl.nip', 'pl.regon', 'pt.nif', 'dk.c
            'es.cups', 'es.nif', 'es.referenciacatastral', 'fr.nir', 'in_.gstin', 'si.emso', 'tn.mf', 'tw.ubn', 'ua.rntrc', 'us.ptin',
            'bg.vat', 'cz.dic', 'sk.dph', 'ro.cf', 'th.tin', 'it.codicefiscale', 'mu.nid', 'eu.at_02', 'mx.rfc', 'mx.curp', 'se.personnummer', 'cz.bankaccount',
            'no.fodselsnummer', 'fi.hetu', 'ch.ssn', 'lv.pvn', 'pl.pesel', 'ee.ik',
-           'iso6346', 'be.eid', 'de.stnr', 'sg.uen', 'ro.onrc', 'id.nik', 'id.npwp', 'cn.ric', 'be.nn', 'be.bis', 'us.ssn', 'us.itin', 'us.atin', 'us.ein', 'nz.bankaccount', 'my.nric', 'mac', 'imsi', 'cfi', 'isil', 'at.postleitzahl', 'isan', 'meid']
+           'iso6346', 'be.eid', 'de.stnr', 'sg.uen', 'ro.onrc', 'id.nik', 'id.npwp', 'cn.ric', 'be.nn', 'be.bis', 'us.ssn', 'us.itin', 'us.atin', 'us.ein', 'nz.bankaccount', 'my.nric', 'mac', 'imsi', 'cfi', 'isil', 'at.postleitzahl', 'isan', 'meid', 'eu.nace', 'be.ssn']
 
 
 # the form a module's validator judges, where that is not compact(x): ISAN's compact() drops the check characters
